@@ -83,22 +83,6 @@ def showErr : PErr → String
 
 /-! known findings (triggers) -/
 
-def typesKey : Str := c!"Types"
-def envKey : Str := c!"Environment"
-def md5Lower : Str := c!"description-md5"
-
-def lowerAscii (s : Str) : Str := s.map Enum.lowerAsciiChar
-
-/-- F-C20-1: a Repository whose `Types` value has two entries (printed in HashSet order) -/
-def trigTypes (ki : KindInfo) (v : TV) : Bool :=
-  (structsOf ki v).any fun p => p.1 == "aptsources.Repository" &&
-    p.2.any fun f => f.1 == typesKey && f.2.contains '\n'
-
-/-- F-C20-2: a Buildinfo with an `Environment` (every piece ends in a newline; HashMap order) -/
-def trigEnv (ki : KindInfo) (v : TV) : Bool :=
-  (structsOf ki v).any fun p => p.1 == "buildinfo.Buildinfo" &&
-    p.2.any fun f => f.1 == envKey && !f.2.isEmpty
-
 /-- F-C20-4: a DEP-3 header without any known field prints as the empty text -/
 def trigEmptyDep3 (ki : KindInfo) (v : TV) : Bool :=
   (structsOf ki v).any fun p => p.1 == "dep3.PatchHeader" && p.2.isEmpty
@@ -112,13 +96,6 @@ def hasInfix (pat : Str) : Str → Bool
 def trigHashPattern (ki : KindInfo) (v : TV) : Bool :=
   (structsOf ki v).any fun p => (p.1 == "debiancopyright.Header" || p.1 == "debiancopyright.FilesParagraph") &&
     p.2.any fun f => (f.1 == c!"Files" || f.1 == c!"Files-Excluded") && hasInfix hashLine f.2
-
-/-- F-C20-3: an apt Packages stanza carrying `Description-md5` in either spelling -/
-def trigMd5 (name : String) (s : Str) : Bool :=
-  name == "package" &&
-    match Lossy.readPara s with
-    | .ok p => p.any fun f => lowerAscii f.1 == md5Lower
-    | .error _ => false
 
 def handle (op : String) (args : List String) : Option String :=
   match op.splitOn ".", args with
@@ -145,8 +122,7 @@ def handle (op : String) (args : List String) : Option String :=
     | .ok v1 =>
       let t1 := print ki.kind v1
       let p1 := showTV ki v1
-      let trig := (if trigTypes ki v1 then ["F-C20-1"] else []) ++ (if trigEnv ki v1 then ["F-C20-2"] else [])
-        ++ (if trigMd5 name s then ["F-C20-3"] else []) ++ (if trigEmptyDep3 ki v1 then ["F-C20-4"] else [])
+      let trig := (if trigEmptyDep3 ki v1 then ["F-C20-4"] else [])
         ++ (if trigHashPattern ki v1 then ["F-C20-5"] else [])
       let sfx := if trig.isEmpty then "" else "\t!" ++ ",".intercalate trig
       match parse ki.kind t1 with
